@@ -499,8 +499,8 @@ pub fn node_json(nd: &NodeData) -> Value {
                 .enumerate()
                 .map(|(c, (nulls, min, max, sum, ndv))| {
                     let sv = |o: &Option<ScalarValue>| match o.as_ref().and_then(|v| to_pos_type(nd, c + 1, v)) {
-                        Some(v) => json!({"x":1,"v": enc.enc(&v)}),
-                        None => absent.clone(),
+                        Some(v) if !v.is_null() => json!({"x":1,"v": enc.enc(&v)}),
+                        _ => absent.clone(),
                     };
                     // a sum can only be re-computed by the specification over directly encoded integers
                     let sumv = match sum {
@@ -751,10 +751,8 @@ pub fn direct_c29(nd: &NodeData) -> Vec<Value> {
             };
             for (decl, is_max, f) in [(min, false, "min"), (max, true, "max")] {
                 if let (Some(d), Some(actual)) = (decl.as_ref().and_then(|v| to_pos_type(nd, c + 1, v)), ext(is_max)) {
+                    // Exact(NULL) is the engine's convention for "no value known" (its own consumers skip it)
                     if !d.is_null() && d != actual {
-                        push(f, c + 1);
-                    }
-                    if d.is_null() {
                         push(f, c + 1);
                     }
                 }
